@@ -656,7 +656,8 @@ def fixed_world(env, variant=0):
     n3 = w.node("n3", g3, stype="A")
     n4 = w.node("n4", g4, stype="A")
     acq = w.acq("acq")
-    f = w.file(acq, "sub/f.dat" if variant % 3 else "f.dat", b"0123456789" * 5)
+    # variant 13: the file sits two directories deep, and those directories hold nothing else
+    f = w.file(acq, "deep/er/f.dat" if variant == 13 else "sub/f.dat" if variant % 3 else "f.dat", b"0123456789" * 5)
     f2 = w.file(acq, "g.dat", b"abc")
     w.copy(f, n1, has="Y", wants="Y")
     w.copy(f, n3, has="Y", wants="Y")
